@@ -590,6 +590,7 @@ def c20(run):
     run.gen_replay("Gen_Layout", cfg(constants=dict(Scope="strings", MaxItems=3), invariants=("Emit",)), ["replay-layout"], "C20:strings")
     run.gen_replay("Gen_Layout", cfg(constants=dict(Scope="comment", MaxItems=1), invariants=("Emit",)), ["replay-layout"], "C20:comment")
     run.gen_replay("Gen_Layout", cfg(constants=dict(Scope="badchar", MaxItems=1), invariants=("Emit",)), ["replay-layout"], "C20:badchar")
+    run.gen_replay("Gen_Layout", cfg(constants=dict(Scope="glue", MaxItems=1), invariants=("Emit",)), ["replay-layout"], "C20:glue")
     # two and three items per block: 40 styles x 134^2 (134^3) programs are sampled, seeded (the exhaustive product does not finish)
     run.gen_replay("Gen_Layout", cfg(constants=dict(Scope="render", MaxItems=3), invariants=("Emit", "SameTokens")), ["replay-layout"], "C20:sim",
                    simulate=10 ** 9, depth=6, workers=1, max_cases=4000 if q else 60000, timeout=2400)
